@@ -45,8 +45,23 @@ class InjectedFault(OSError):
     pass
 
 
+_WORLDS = {}
+
+
+def _lookup_store(wid, label, read_only):
+    """Unpickling a TStore inside the same process yields the *same* store (an
+    in-memory store cannot travel; the closure/config round trip is what is tested)."""
+    st = _WORLDS[wid].stores[label]
+    return st.with_read_only(True) if read_only else st
+
+
 class World:
+    _next = 0
+
     def __init__(self):
+        World._next += 1
+        self.wid = World._next
+        _WORLDS[self.wid] = self
         self.cur = None  # current task id (set by controlled executors)
         self.log: list[Ev] = []
         self.overlay_mode = False
@@ -103,6 +118,9 @@ class World:
 
     def mark(self):
         return len(self.log)
+
+    def dispose(self):
+        _WORLDS.pop(self.wid, None)
 
     def events(self, since=0):
         return self.log[since:]
@@ -193,6 +211,9 @@ class TStore(MemoryStore):
         r = await super().exists(key)
         self.world.record("exists", self.label, key, r)
         return r
+
+    def __reduce__(self):
+        return (_lookup_store, (self.world.wid, self.label, self.read_only))
 
     def __repr__(self):
         return f"TStore({self.label})"
